@@ -218,7 +218,7 @@ def place_chain(body, op):
 
 def r2(ctx):
     facts = ctx.facts
-    rule = Rule("C20.R2", "right id, right address: both responses carry the request's own id and node address", floor=4, engine="A-prov")
+    rule = Rule("C20.R2", "right id, right address: both responses carry the request's own id and node address; respond sends the payload given", floor=5, engine="A-prov")
     for name, pat in (("respond", re.escape(T) + "::respond"), ("drop", r"<crate::service::TalkRequest as std::ops::Drop>::drop")):
         b = facts.one(pat)
         rule.analysed(b)
@@ -237,6 +237,16 @@ def r2(ctx):
                         body = [y for y in walk(f["1"]) if y[0] == "agg" and y[1].endswith("ResponseBody::Talk")]
                         rule.check(addr == "self.node_address" and rid == "self.id" and bool(body), "%s answers HandlerIn::Response(self.node_address, Response{id: self.id, Talk{..}})" % name,
                                    "%s|id-address" % name, "TalkRequest::%s answers to %s with id %s" % (name, addr, rid), loc=b.loc(t.line))
+                        if name == "respond" and body:
+                            # "the application's payload if it responds": the payload sent is the argument, untouched
+                            import c02
+                            payload = dict(body[0][2])["response"]
+                            pl = 2 if b.local_name(2) else None
+                            touched = c02.mut_borrowed_locals(b, 2, bi) if pl else []
+                            rule.check(set(roots(payload)) == {("param", 2, b.local_name(2))} and not any(x[0] == "call" for x in walk(payload)) and not touched,
+                                       "respond sends the application's payload as given", "respond|payload",
+                                       "TalkRequest::respond does not send the payload it was given unchanged (sent: %s%s): the peer receives something else than the "
+                                       "application's answer" % (fmt_short(payload)[:80], "; the argument is modified in place first" if touched else ""), loc=b.loc(t.line))
                         if name == "drop" and body:
                             payload = dict(body[0][2])["response"]
                             empty = all(y[0] == "call" and re.search(r"vec::Vec::<.*>::new$|Vec::new$|from_elem|box_new_uninit|into_vec", y[1]) or y[0] in ("const", "agg") for y in roots(payload))
